@@ -186,35 +186,25 @@ impl TryFrom<&str> for FeelDaysAndTimeDuration {
     if let Some(captures) = RE_DAYS_AND_TIME.captures(value) {
       let mut is_valid = false;
       let mut nanoseconds = 0_i128;
-      if let Some(days_match) = captures.name("days") {
-        if let Ok(days) = days_match.as_str().parse::<u64>() {
-          nanoseconds += (days as i128) * NANOSECONDS_IN_DAY;
-          is_valid = true;
-        }
-      }
-      if let Some(hours_match) = captures.name("hours") {
-        if let Ok(hours) = hours_match.as_str().parse::<u64>() {
-          nanoseconds += (hours as i128) * NANOSECONDS_IN_HOUR;
-          is_valid = true;
-        }
-      }
-      if let Some(minutes_match) = captures.name("minutes") {
-        if let Ok(minutes) = minutes_match.as_str().parse::<u64>() {
-          nanoseconds += (minutes as i128) * NANOSECONDS_IN_MINUTE;
-          is_valid = true;
-        }
-      }
-      if let Some(seconds_match) = captures.name("seconds") {
-        if let Ok(seconds) = seconds_match.as_str().parse::<u64>() {
-          nanoseconds += (seconds as i128) * NANOSECONDS_IN_SECOND;
-          is_valid = true;
+      for (group, nanoseconds_in_unit) in [
+        ("days", NANOSECONDS_IN_DAY),
+        ("hours", NANOSECONDS_IN_HOUR),
+        ("minutes", NANOSECONDS_IN_MINUTE),
+        ("seconds", NANOSECONDS_IN_SECOND),
+      ] {
+        if let Some(group_match) = captures.name(group) {
+          match group_match.as_str().parse::<u64>() {
+            Ok(count) => {
+              nanoseconds += (count as i128) * nanoseconds_in_unit;
+              is_valid = true;
+            }
+            Err(_) => return Err(invalid_date_and_time_duration_literal(value.to_string())),
+          }
         }
       }
       if let Some(fractional_match) = captures.name("fractional") {
-        if let Ok(fractional) = fractional_match.as_str().parse::<f64>() {
-          nanoseconds += (fractional * NANOSECONDS_IN_SECOND as f64).trunc() as i128;
-          is_valid = true;
-        }
+        nanoseconds += super::fraction_to_nanos(fractional_match.as_str()) as i128;
+        is_valid = true;
       }
       if captures.name("sign").is_some() {
         nanoseconds = -nanoseconds;
